@@ -10,7 +10,8 @@ PROP_FILES = ["Properties/C05.v"]
 RULE = ("(control block, script, program) triples: path lengths 0..8, 16, 32, 64, 127, 128; both parity bits; leaf-version bytes incl. all of "
         "c0..ff step 2 and 00..3e; path nodes below / above / EQUAL to the running hash; internal keys on and off the curve; for each valid "
         "commitment every single-field corruption (one byte of control base, of a node, of the program, of the script; parity flipped; node "
-        "swapped; truncated / extended control). non-trivial = path length >= 1 or a corruption; distinct = distinct triples")
+        "swapped; truncated / extended control). Whole --tx/--txin sessions on signed tapscript spends with 0/1/2/127/128/129-node paths, valid and "
+        "corrupted, with and without an annex (2, 33, 65 bytes) as last witness item, and control blocks of illegal sizes. non-trivial = path length >= 1 or a corruption; distinct = distinct triples")
 
 def th(t): return hashlib.sha256(t.encode()).digest()
 def tagged(tag, m): return hashlib.sha256(th(tag) + th(tag) + m).digest()
@@ -89,6 +90,13 @@ def gen(chk):
                 # one more node than allowed: append 32 bytes to the control block of the witness
                 raw = bytes.fromhex(c["spend"]); 
                 sess.append(("spend id=t129 tx=%s txin=%s flags=%d cmds=c" % (over_long(raw).hex().encode().hex(), c["fund"].encode().hex(), 0x1FFFDF)))
+    # the same with an annex as last witness item (BIP341 drops it before the control block and the script are taken): a short one, one that
+    # has the size of a control block (33 bytes) and one of 65 bytes
+    for wn in (0, 1, 2, 127):
+        for k, annex in enumerate((b"\x50\x01", b"\x50" + bytes(rng.randrange(256) for _ in range(32)), b"\x50" + bytes(rng.randrange(256) for _ in range(64)))):
+            for mut in (None, "control"):
+                c = S.build(rng, "p2tr-path", wn=wn, ht=0, mutate=mut, annex=annex)
+                sess.append("spend id=t%d_%sannex%d tx=%s txin=%s flags=%d cmds=c" % (wn, mut, k, c["spend"].encode().hex(), c["fund"].encode().hex(), 0x1FFFDF))
     # control blocks of illegal sizes (refused before any hashing): 0, 1, 2, 32, 34, 64, 66 bytes
     for n in (0, 1, 2, 32, 34, 64, 66):
         c = S.build(rng, "p2tr-path", wn=1, ht=0, mutate="ctlsize:%d" % n)
@@ -108,7 +116,7 @@ def main(tier):
     chk.prove(PROP_FILES)
     wrong = []
     def inspect(c, il, ml):
-        m = re.search(r"\bid=t(\d+)(?:_(\w+))? ", c)
+        m = re.search(r"\bid=t(\d+)(?:_(None|control|size\d+)(?:annex\d)?)? ", c)
         if not m: return
         last = [l for l in il if re.match(r"R \S+ #\d+ ", l)]
         ok = bool(last) and " done=1 " in last[-1] and " err=0 " in last[-1] and " st=01 " in last[-1]
